@@ -15,6 +15,8 @@
 //	ty s   []string through the public EditScript (==); mode must be 102.  Code c is a freshly
 //	       allocated string with the text "k<c/2>": codes 2q and 2q+1 are equal under == and told
 //	       apart by the address of their bytes.  On codes: a/2 = b/2.
+//	ty h   []string through the public EditScript (==); mode must be 0.  Codes are strings with equal
+//	       32-bit hashes and long strings one byte apart (round4.go); distinct codes, distinct strings.
 //	ty t   []struct{K int32; P string; B [3]byte} through editScriptFunc with eq = (a.K == b.K), K the
 //	       class of the code under eqFor(mode) (mode 1..99: c%mode, 101..: c/(mode-100)), P the code.
 //
@@ -167,6 +169,7 @@ func runL[T any](c lcodec[T], call func(lhs, rhs []T) []slice.Edit[T], f []strin
 	if p := tr.Catch(func() { es = call(lhs, rhs) }); p != "" {
 		return "PANIC " + strings.TrimPrefix(p, "panic:")
 	}
+	afterCall()
 	decAll := func(xs []T) []int {
 		out := make([]int, len(xs))
 		for i, x := range xs {
@@ -265,6 +268,12 @@ func execL(f []string) string {
 				}
 				return -888888
 			}}
+		return runL(c, func(l, r []string) []slice.Edit[string] { return slice.EditScript(l, r) }, f)
+	case "h":
+		if mode != 0 {
+			return "?"
+		}
+		c := lcodec[string]{hEnc, hDec}
 		return runL(c, func(l, r []string) []slice.Edit[string] { return slice.EditScript(l, r) }, f)
 	case "t":
 		if mode <= 0 {
